@@ -401,6 +401,64 @@ theorem std_bins_range {R : ℝ} (hR : 0 ≤ R) (lats lons : List ℝ) :
   · positivity
   · linarith
 
+/-! ### `standard_bins` with `bin_no` / `max_dist` given or not: every length is in `geo_scale` units -/
+
+/-- a cut-off the caller gives is used as it is — for metric and lat-lon input, for every `geo_scale`, whether or not
+    `bin_no` is given: the edges are `linspace(0, max_dist, n + 1)` with `n = bin_no` or Sturges' number -/
+theorem standard_bins_given_max_dist (latlon : Bool) (R : ℝ) (axes : List (List ℝ)) (binNo : Option ℕ) (m : ℝ) :
+    standardBins latlon R (some axes) binNo (some m)
+      = .ok (linspace0 m (binNo.getD (sturges (axes.headD []).length))) := by
+  cases binNo <;> simp [standardBins]
+
+/-- with both given the position tuple is not looked at (it may be absent) -/
+theorem standard_bins_both_given (latlon : Bool) (R : ℝ) (pos : Option (List (List ℝ))) (n : ℕ) (m : ℝ) :
+    standardBins latlon R pos (some n) (some m) = .ok (linspace0 m n) := by
+  simp [standardBins]
+
+/-- the edges start at 0, end exactly at the cut-off and there are `n + 1` of them -/
+theorem linspace0_ends (m : ℝ) {n : ℕ} (hn : 0 < n) :
+    (linspace0 m n).length = n + 1 ∧ (linspace0 m n).head? = some 0 ∧ (linspace0 m n).getLast? = some m := by
+  have h : n ≠ 0 := by omega
+  refine ⟨by simp [linspace0, h], ?_, ?_⟩
+  · simp [linspace0, h, List.range_succ_eq_map, Ne.symm h]
+  · simp [linspace0, h, List.range_succ, List.getLast?_append]
+
+/-- without a given cut-off the lat-lon edges end at a third of a great-circle distance on the sphere of radius
+    `geo_scale`: in `[0, π R / 3]` (generalises `std_bins_range` to any `bin_no`) -/
+theorem standard_bins_auto_cutoff {R : ℝ} (hR : 0 ≤ R) (axes : List (List ℝ)) (binNo : Option ℕ) :
+    ∃ m n, standardBins true R (some axes) binNo none = .ok (linspace0 m n) ∧ 0 ≤ m ∧ m ≤ π * R / 3 := by
+  refine ⟨stdDiam true R axes / ((3:ℕ):ℝ), binNo.getD (sturges (axes.headD []).length), ?_, ?_⟩
+  · cases binNo <;> simp [standardBins]
+  · obtain ⟨h0, h1⟩ := c2g_range hR (boxDiam (sphereAxes R axes))
+    simp only [stdDiam, if_true]
+    push_cast
+    constructor
+    · positivity
+    · linarith
+
+/-- the old fully automatic model is the general one with both arguments missing -/
+theorem std_bins_auto_is_standard_bins (R : ℝ) (lats lons : List ℝ) :
+    standardBins true R (some [lats, lons]) none none
+      = .ok (linspace0 (stdMaxDist R lats lons) (sturges lats.length)) := by
+  rw [stdMaxDist_eq]; simp [standardBins]
+
+/-- **unit change**: the same lat-lon call in the unit `geo_scale = R > 0`, with the cut-off (if given) expressed in that
+    unit, returns the radian edges multiplied by `R` — for all four combinations of `bin_no` / `max_dist` given or not -/
+theorem standard_bins_unit_change {R : ℝ} (hR : 0 < R) (pos : Option (List (List ℝ))) (binNo : Option ℕ) (maxDist : Option ℝ) :
+    standardBins true R pos binNo (maxDist.map (R * ·))
+      = (standardBins true 1 pos binNo maxDist).map (fun e => e.map (R * ·)) :=
+  standardBins_geo_scale hR pos binNo maxDist
+
+/-- metric input: `geo_scale` is ignored -/
+theorem standard_bins_metric_ignores_geo_scale (R R' : ℝ) (pos : Option (List (List ℝ))) (binNo : Option ℕ) (maxDist : Option ℝ) :
+    standardBins false R pos binNo maxDist = standardBins false R' pos binNo maxDist := by
+  cases binNo <;> cases maxDist <;> cases pos <;> simp [standardBins, stdDiam]
+
+example : (0:ℝ) < 6371 ∧ (Option.map ((6371:ℝ) * ·) (some (0.5:ℝ))) = some (6371 * 0.5) := by
+  constructor
+  · norm_num
+  · rfl
+
 /-! ### kriging of lat-lon (+ time) data through `isometrize` -/
 
 /-- without time the assembled entry is the chord entry (hence the Yadrenko covariance) -/
